@@ -165,11 +165,11 @@ func handleSubStr(params internal.HandlerFuncParams) ([]byte, error) {
 	str := value[start:end]
 
 	if reversed {
-		res := ""
+		res := make([]byte, 0, len(str))
 		for i := len(str) - 1; i >= 0; i-- {
-			res = res + string(str[i])
+			res = append(res, str[i])
 		}
-		str = res
+		str = string(res)
 	}
 
 	return []byte(fmt.Sprintf("$%d\r\n%s\r\n", len(str), str)), nil
